@@ -537,7 +537,7 @@ func planFragmentMatches(schema Schema, typeConditionAST *ast.Named, runtime *Ob
 		return true
 	}
 	conditionalType, err := typeFromAST(schema, typeConditionAST)
-	if err != nil {
+	if err != nil || conditionalType == nil {
 		return false
 	}
 	if conditionalType == runtime {
